@@ -14,7 +14,7 @@ class C19(Prop):
     MODEL_TARGETS = ["theories/Model/Process.vo", "theories/Spec/ProcessSpec.vo", "theories/Model/ProcessCase.vo"]
     CASE_HEADER = "From Boreal Require Import Base.Prelude Model.Process Spec.ProcessSpec Model.ProcessCase."
     HARNESS_BINS = ("c19", "c19e")
-    KF = {1: "C19-shared-tail-beyond-eof"}
+    KF = {}
     RULE = ("synthetic /proc/<pid>/{maps,mem,pagemap} and backing files are materialised on disk and walked by the real "
             "LinuxProcessMemory (hook verif_process_memory) with a generated op sequence over next/fetch/reset; page "
             "sizes 16..4096, chunk sizes none / page multiples / non-multiples below and above the page size / 1 / "
@@ -289,14 +289,16 @@ class C19(Prop):
                 gopt(cfg.get("chunk"), gN), cfg.get("max_fetch", 1024 * 1024 * 1024))
             NL = out["needle_len"]
             def tail(m):
-                # written by the process through a shared file mapping, not wholly inside the file
-                if m["kind"] != "file_shared":
-                    return []
-                return [o for o in m["plant"] if o + NL > m["file_len"]]
+                # Needles written by the process through a shared file mapping, not wholly inside the file: the
+                # former class C19-shared-tail-beyond-eof.  Since its repair (the present page holding the end of
+                # the file is re-read from the process) they are found like any other; nothing is set aside.
+                return []
+            def is_tail(m):
+                return m["kind"] == "file_shared" and any(o + NL > m["file_len"] for o in m["plant"])
             maps = glist("(%d, %s, %s, %s)" % (m["pages"] * 4096, glist("%d" % x for x in m["present"]),
                                               glist("%d" % x for x in sorted(f)), glist("%d" % x for x in tail(m)))
                          for m, f in zip(case["mappings"], res["found"]))
-            if any(tail(m) for m in case["mappings"]):
+            if any(is_tail(m) for m in case["mappings"]):
                 ctx.count("e2e: needle written beyond the end of a shared file")
             terms.append("C19e_case %s %d %s" % (prm, out["needle_len"], maps))
         return ("(fold_right (fun t acc => let '(a, b, k) := t in let '(a', b', k') := acc in "
